@@ -930,7 +930,12 @@ func (s *Server) infoTable(name string) *Table {
 						nu = 0
 					}
 					for j, cn := range ix.Cols {
-						t.rows[fmt.Sprintf("%s|%s|%03d|%03d", sc.Name, tab.Name, ii, j)] = Row{ix.Name, cn, nu, sc.Name, tab.Name, int64(j + 1)}
+						// a functional key part (MySQL >= 8.0.13) has no column name
+						var colName interface{} = cn
+						if cn == "" {
+							colName = nil
+						}
+						t.rows[fmt.Sprintf("%s|%s|%03d|%03d", sc.Name, tab.Name, ii, j)] = Row{ix.Name, colName, nu, sc.Name, tab.Name, int64(j + 1)}
 					}
 				}
 			}
